@@ -417,7 +417,9 @@ fn process_withdrawals_for_single_pool<C: ContentAddrStore>(
     // more liquidity tokens than the pool ever issued cannot be redeemed (a test-network faucet
     // can mint any denomination, including a pool's liquidity token); PoolState::withdraw
     // asserts on it, so such requests are left alone
-    if total_liqs > pool_state.liqs {
+    if total_liqs > pool_state.liqs || pool_state.liqs == 0 {
+        // (a pool whose liquidity has all been redeemed has no share to compute either:
+        // a zero-valued request against it would divide 0 by 0)
         return;
     }
     let (total_left, total_write) = pool_state.withdraw(total_liqs);
